@@ -115,6 +115,10 @@ def gen_instance(rng, profile=None):
             pas = rng.choice([0, 1, tinfo["capacity"] * need - rng.randrange(0, 10), tinfo["capacity"] * need])
             pas = max(0, pas)
             seated = rng.choice([0, 1, min(pas, tinfo["seats"] * need), tinfo["seats"] * max(1, need - 1)])
+            if p.get("seat_dominated") and rng.random() < 0.6:
+                # the seat requirement needs more coupled vehicles than the passenger requirement
+                pas = max(pas, tinfo["seats"] * (need + 1))
+                seated = min(pas, tinfo["seats"] * (need + rng.choice([1, 2])))
             segs.append({
                 "id": "d%d_s%d" % (d, k),
                 "routeSegment": seg["id"],
